@@ -15,6 +15,8 @@ import ModbusVerif.Model.Server
        * `runWith ok`      `runClock` for an arbitrary discipline `ok`;
      zero-byte reads (`serial.ErrTimeout` masked into `(0, nil)`; `io.ReadFull` calls `Read`
      again): `Op.read want 0`, text form `r:<want>:0`; `rfTraceSerial`, `rtuTraceSerial`.
+     `rtuSkeleton`, `rtuPreTrace`: the code since fix c501b6a (second `SetDeadline(T)` in front
+     of the first read); `rtuPreTraceOld`, `rtuTraceOld`: the code before it (witness for F9).
   2. outcomes coupled to the clock: `outcomeOk` (a `Read` that STARTS after the armed deadline
      fails with the timeout error whatever the receive buffer holds: it cannot be a `read`),
      `timeoutNotEarly` (A-deadline⁻: a `Read` that fails with the timeout error returns no
@@ -186,12 +188,13 @@ def needsResync (r : (Except Err Pdu) × Bytes) : Bool :=
   | (.error .shortFrame, _) => true
   | _ => false
 
-/-- what every RTU exchange looks like, whatever `Read` calls its two read phases consist of:
-    `SetDeadline(T)`, the optional wait, `Write`, the post-transmission sleep, the reads of
-    `readRTUFrame`, and - if `flush` is given - `Sleep(256·t1)`, `SetDeadline(500 µs)` and the
-    reads of `discard` -/
+/-- what every RTU exchange looks like (code since fix c501b6a), whatever `Read` calls its two
+    read phases consist of: `SetDeadline(T)`, the optional wait, `Write`, the post-transmission
+    sleep, `SetDeadline(T)` again, the reads of `readRTUFrame`, and - if `flush` is given -
+    `Sleep(256·t1)`, `SetDeadline(500 µs)` and the reads of `discard` -/
 def rtuSkeleton (T rate L w post : Nat) (reads : List Op) (flush : Option (List Op)) : List Op :=
-  [.setDeadline T] ++ (if w > 0 then [.sleep w] else []) ++ [.write L, .sleep post] ++ reads ++
+  [.setDeadline T] ++ (if w > 0 then [.sleep w] else []) ++
+    [.write L, .sleep post, .setDeadline T] ++ reads ++
     (match flush with
      | none => []
      | some f => [.sleep (Timing.maxRTUFrameLength * Timing.t1 rate), .setDeadline 500000] ++ f)
@@ -203,16 +206,26 @@ def rtuTraceSerial (T rate L w post : Nat) (s : Bytes) (e : Ending) (p1 p2 p3 : 
     (if needsResync (Rtu.readFrame s e) then
       some (flushOpsSerial (Rtu.readFrame s e).2.length p3) else none)
 
-/-- the part of an RTU exchange in front of the first `Read` -/
+/-- the part of an RTU exchange in front of the first `Read` (code since fix c501b6a): it ends
+    with the second `SetDeadline(T)` -/
 def rtuPreTrace (T L w post : Nat) : List Op :=
+  [.setDeadline T] ++ (if w > 0 then [.sleep w] else []) ++ [.write L, .sleep post, .setDeadline T]
+
+/-- THE CODE BEFORE FIX c501b6a (kept as the regression witness for finding F9): one deadline,
+    armed in front of the two inter-frame sleeps, for the whole exchange -/
+def rtuPreTraceOld (T L w post : Nat) : List Op :=
   [.setDeadline T] ++ (if w > 0 then [.sleep w] else []) ++ [.write L, .sleep post]
+
+/-- `rtuTrace` of the code before fix c501b6a (regression witness for F9) -/
+def rtuTraceOld (T rate L w post : Nat) (s : Bytes) (e : Ending) : List Op :=
+  rtuPreTraceOld T L w post ++ rtuReadOps s ++ rtuTail rate (Rtu.readFrame s e)
 
 /-- the part of an MBAP exchange in front of the first `Read` -/
 def mbapPreTrace (T L : Nat) : List Op := [.setDeadline T, .write L]
 
 /-- margin of an RTU exchange on the serial wrapper over its timeout: `rtuMargin`, the `Write`
-    (which ignores the deadline), and one port timeout `δ` for the last frame read and one for
-    the flush read -/
+    (at most `wmax`; the wrapper's `Write` ignores the deadline), and one port timeout `δ` for
+    the last frame read and one for the flush read -/
 def rtuMarginSerial (rate w post ε δ wmax : Nat) : Nat := rtuMargin rate w post ε + wmax + 2 * δ
 
 /-! ### 4. the arguments of the two inter-frame sleeps -/
@@ -228,9 +241,17 @@ def postOf (rate n ts now2 : Nat) : Nat := (ts + n * Timing.t1 rate + Timing.t35
 
 /-- the fixed margin of an RTU exchange (sockets: rtuovertcp, rtuoverudp) over its timeout as a
     function of the baud rate and the length `n` of the request frame only:
-    wait ≤ t3.5, post ≤ n·t1 + t3.5, resynchronisation 256·t1, flush 500 µs, three oversleeps -/
+    wait ≤ t3.5, post ≤ n·t1 + t3.5, resynchronisation 256·t1, flush 500 µs, three oversleeps.
+    Since fix c501b6a the time `Write` takes is no longer absorbed by the timeout: the call ends
+    by `t0 + T + marginRtu + dWrite` (`C07X_rtu_margin_concrete`), and by `t0 + T + marginRtu`
+    when `dWrite ≤ n·t1 + t3.5` comes off the second sleep (`C07X_rtu_margin_concrete_coupled`). -/
 def marginRtu (rate n ε : Nat) : Nat :=
   (n + 256) * Timing.t1 rate + 2 * Timing.t35 rate + 500000 + 3 * ε
+
+/-- the second sleep when `Write` returns at once: the emulated transmission time of the
+    `n`-byte request plus t3.5. Before fix c501b6a a timeout below it could not be met
+    (`C07X_rtu_timeout_below_min_always_fails`, about `rtuPreTraceOld`). -/
+def minTimeoutRtu (rate n : Nat) : Nat := n * Timing.t1 rate + Timing.t35 rate
 
 /-- the same on the serial wrapper -/
 def marginRtuSerial (rate n ε δ wmax : Nat) : Nat := marginRtu rate n ε + wmax + 2 * δ
@@ -359,9 +380,11 @@ def lastArrival : Nat → List (Nat × Nat) → Nat
 
 #guard showTrace (rfTraceSerial 3 0 2) = "r:3:0 r:3:0 re:3"
 #guard showTrace (rtuTraceSerial 1000000 19200 8 0 5916661 [0x01, 0x03, 0x02, 0x00, 0x0a, 0x38, 0x43] .timeout 2 1 0) =
-  "sd:1000000 w:8 sl:5916661 r:3:0 r:3:0 r:3:3 r:4:0 r:4:4"
+  "sd:1000000 w:8 sl:5916661 sd:1000000 r:3:0 r:3:0 r:3:3 r:4:0 r:4:4"
 #guard rtuTraceSerial 1000000 19200 8 250000 5916661 [0x01, 0x03, 0x02, 0x00, 0x0a, 0x38, 0x44, 0xFF] .timeout 0 0 0 =
   rtuTrace 1000000 19200 8 250000 5916661 [0x01, 0x03, 0x02, 0x00, 0x0a, 0x38, 0x44, 0xFF] .timeout
+#guard showTrace (rtuTraceOld 1000000 19200 8 0 5916661 [0x01, 0x03, 0x02, 0x00, 0x0a, 0x38, 0x43] .timeout) =
+  "sd:1000000 w:8 sl:5916661 r:3:3 r:4:4"
 #guard showTrace (readRequestTrace 30000000000 []) = "sd:30000000000 re:7"
 #guard serveTimed 100 0 [(50, 1), (120, 1), (190, 1), (260, 1)] = (4, 361)
 #guard serveTimedOnce 100 0 [(50, 1), (120, 1), (190, 1), (260, 1)] = (1, 100)
